@@ -650,6 +650,19 @@ V({
     "trusted": [],
 })
 
+# -------------------------------------------------------------------------- V29
+V({
+    "id": "V29",
+    "title": "sized_helpers: push_adt_sized_conditions, push_tuple_sized_conditions (chalk-solve/src/clauses/builtin_traits/sized.rs)",
+    "template": "v29_sized_helpers.rs",
+    "assumptions": [
+        "V29: last_field_of_struct (closures over binders) and needs_impl_for_tys (iterator map) are abstract callees; a substitution's argument list is an abstract sequence and `Substitution::iter(..).last()` returns its last element (std's Iterator::last on a slice iterator); std::iter::once / Option::into_iter per their documentation",
+        "V29: invariant of TyKind::Tuple(arity, substitution): exactly `arity` arguments, all of them types (precondition; the code unwraps)",
+        "V29: a change that filters the iterator with an adaptor (Option::filter, Iterator::filter) makes the unit UNDECIDED, not a violation",
+    ],
+    "trusted": ["chalk-ir Substitution (abstract)", "builtin_traits::{last_field_of_struct, needs_impl_for_tys}"],
+})
+
 # ===========================================================================
 GLOBAL_ASSUMPTIONS = [
     "soundness of rustc+Kani's model of core/alloc and of CBMC; soundness of Verus and Z3",
